@@ -16,6 +16,7 @@ def base_types():
         lambda: Type(PQName([NameSpecifier(""), NameSpecifier("G")]), const=True, volatile=True),
         lambda: Type(PQName([FundamentalSpecifier("long double")])),
         lambda: Type(PQName([FundamentalSpecifier("short signed int")]), volatile=True),
+        lambda: Type(PQName([FundamentalSpecifier("int unsigned long")])),
     ]
 
 
